@@ -915,15 +915,20 @@ def run_case(c):
             if st2 != "ok" or not isinstance(r2, df.Field):
                 rec["oracle"].append("commutative-rejected")
             else:
-                if not (np.array_equal(r.array, r2.array) and np.array_equal(r.valid, r2.valid)
+                # complex products may be fused differently in the two orders: values up to rounding
+                same_vals = r.array.shape == r2.array.shape and bool(np.all(
+                    np.abs(r.array.astype(complex) - r2.array.astype(complex)) <= 1e-9 * ctx.scale))
+                if not (same_vals and np.array_equal(r.valid, r2.valid)
                         and r.mesh == r2.mesh and r.nvdim == r2.nvdim):
                     rec["oracle"].append("commutative-values")
                 if vec_labels(r) != vec_labels(r2):
                     rec["oracle"].append("commutative-labels")
                     st_a, fa = attempt(lambda: ev_impl(e[3], leaves, n))
                     st_b, fb = attempt(lambda: ev_impl(e[4], leaves, n))
-                    if (isinstance(fa, df.Field) and isinstance(fb, df.Field) and fa.nvdim > 1
-                            and fb.nvdim > 1 and vec_labels(fa) != vec_labels(fb)):
+                    # known: two fields with the same component count but different labels / mapping
+                    # (the result takes the left operand's)
+                    if (isinstance(fa, df.Field) and isinstance(fb, df.Field) and fa.nvdim == fb.nvdim
+                            and vec_labels(fa) != vec_labels(fb)):
                         rec["tags"].append(KNOWN_COMM)
                 obs["swapped_labels"] = js(vec_labels(r2))
         if c["kind"] == "stackcomp":
